@@ -1,6 +1,6 @@
 (* C03, model side: what split_block and join_blocks do to the edge set. *)
 From Coq Require Import ZArith List Bool Arith Lia.
-From GR Require Import Base.Result Adt.RefCache Adt.RetCache Adt.RetCacheProofs IR.State IR.Modify IR.Edit IR.Agree IR.Frame.
+From GR Require Import Base.Result Adt.RefCache Adt.RetCache Adt.RetCacheProofs IR.State IR.Modify IR.Edit IR.Agree IR.Frame IR.BytesProofs.
 Import ListNotations.
 Open Scope Z_scope.
 
@@ -148,4 +148,130 @@ Proof.
   - intros [(A & B & C)|(e & A & B & C & ->)].
     + left. split; [apply C1; tauto|]. intros Ho. apply out_edges_In in Ho. tauto.
     + right. exists e. split; [apply out_edges_In; split; [apply C1; tauto|exact B]|reflexivity].
+Qed.
+
+(* ---- the calls of a patch: every return of the callee gets an edge to every new return site ---- *)
+Definition has_ret (s : st) (b : nat) : Prop := exists e, In e (cfg s) /\ nid (src e) = b /\ is_ret e = true.
+Lemma block_return_edges_In s b e : In e (block_return_edges s b) <-> In e (cfg s) /\ nid (src e) = b /\ is_ret e = true.
+Proof. unfold block_return_edges. rewrite filter_In, out_edges_In. tauto. Qed.
+Lemma has_ret_iff s b : has_ret s b <-> block_return_edges s b <> [].
+Proof.
+  split.
+  - intros (e & H) E. apply block_return_edges_In in H. rewrite E in H. destruct H.
+  - intros H. destruct (block_return_edges s b) as [|e l] eqn:E; [contradiction|].
+    exists e. apply block_return_edges_In. rewrite E. left. reflexivity.
+Qed.
+Lemma fold_add_targets b rts : forall pc x,
+  In x (fold_left (fun pc rt => cfg_add (mk_edge' (NB b) rt ET_RETURN) pc) rts pc) <-> In x pc \/ exists rt, In rt rts /\ x = mk_edge' (NB b) rt ET_RETURN.
+Proof.
+  induction rts as [|r t IH]; intros pc x; cbn [fold_left In]; [firstorder|].
+  rewrite IH. unfold cfg_add. rewrite es_add_In. split.
+  - intros [[->|H]|(rt & A & B)]; [right; exists r; auto|left; exact H|right; exists rt; auto].
+  - intros [H|(rt & [->|A] & B)]; [left; right; exact H|left; left; exact B|right; exists rt; auto].
+Qed.
+
+Lemma callee_step_spec s f rts pc s' pc' :
+  add_return_edges_to_callee s f rts pc = (s', pc') ->
+  fblocks s' = fblocks s /\
+  (forall e, In e pc -> In e pc') /\
+  (forall b rt, In b (func_blocks s f) -> has_ret s b -> In rt rts -> In (mk_edge' (NB b) rt ET_RETURN) pc') /\
+  (forall b, ~ In b (func_blocks s f) -> has_ret s b -> has_ret s' b).
+Proof.
+  unfold add_return_edges_to_callee. generalize (func_blocks s f). intros l. revert s pc. induction l as [|x l IH]; intros s pc E; cbn [fold_left] in E.
+  - inversion E; subst. split; [reflexivity|]. split; [auto|]. split; [intros b rt []|auto].
+  - destruct (block_return_edges s x) as [|e0 r0] eqn:Er.
+    + destruct (IH _ _ E) as (A & B & C & D). split; [exact A|]. split; [exact B|]. split.
+      * intros b rt [->|Hb] Hr Hrt; [apply has_ret_iff in Hr; contradiction|apply C; assumption].
+      * intros b Hb. apply D. intros X. apply Hb. right. exact X.
+    + set (s1 := set_cfg s (fold_left (fun c e => cfg_discard e c) (block_proxy_return_edges s x) (cfg s))) in E.
+      set (pc1 := fold_left (fun pc0 rt => cfg_add (mk_edge' (NB x) rt ET_RETURN) pc0) rts pc) in E.
+      destruct (IH _ _ E) as (A & B & C & D).
+      assert (Hkeep : forall b, b <> x -> has_ret s b -> has_ret s1 b).
+      { intros b Hb (e & H1 & H2 & H3). exists e. split; [|auto]. unfold s1. cbn [cfg set_cfg]. apply fold_discard_In. split; [exact H1|].
+        intros X. unfold block_proxy_return_edges in X. apply filter_In in X. destruct X as (X & _). apply block_return_edges_In in X. destruct X as (_ & X & _). congruence. }
+      split; [exact A|]. split; [intros e He; apply B; unfold pc1; apply fold_add_targets; left; exact He|]. split.
+      * intros b rt Hb Hr Hrt. destruct (Nat.eq_dec b x) as [->|Hne].
+        -- apply B. unfold pc1. apply fold_add_targets. right. exists rt. auto.
+        -- destruct Hb as [->|Hb]; [congruence|]. apply C; [exact Hb|apply Hkeep; auto|exact Hrt].
+      * intros b Hb Hr. apply D; [intros X; apply Hb; right; exact X|]. apply Hkeep; [intros ->; apply Hb; left; reflexivity|exact Hr].
+Qed.
+
+Lemma aget_In {V} k (m : list (nat * V)) v : aget k m = Some v -> In (k, v) m.
+Proof.
+  induction m as [|[k' v'] t IH]; cbn [aget]; [discriminate|]. destruct (Nat.eqb k' k) eqn:E.
+  - intros H. inversion H; subst. apply Nat.eqb_eq in E. subst. left. reflexivity.
+  - intros H. right. apply IH, H.
+Qed.
+
+(* the grouping of return sites by callee *)
+Definition site_step (s : st) (fts : list (nat * node)) (m : list (nat * list node)) (ce : edge) : list (nat * list node) :=
+  if negb (is_call ce) then m
+  else if is_proxy (tgt ce) then m
+  else if negb (is_code s (nid (tgt ce))) then m
+  else match aget (nid (tgt ce)) (fbb s) with
+       | None => m
+       | Some f => match aget (nid (src ce)) fts with
+                   | None => m
+                   | Some ft => aset f (match aget f m with Some l => l ++ [ft] | None => [ft] end) m
+                   end
+       end.
+Lemma site_step_keeps s fts m ce f ft : (exists l, aget f m = Some l /\ In ft l) -> exists l, aget f (site_step s fts m ce) = Some l /\ In ft l.
+Proof.
+  intros (l & A & B). unfold site_step.
+  repeat match goal with |- context [if ?c then _ else _] => destruct c; [eauto|] end.
+  destruct (aget _ (fbb s)) as [g|]; [|eauto]. destruct (aget _ fts) as [ft'|]; [|eauto].
+  destruct (Nat.eq_dec g f) as [->|Hne].
+  - rewrite aget_aset_same. rewrite A. eexists. split; [reflexivity|]. apply in_or_app. left. exact B.
+  - rewrite aget_aset_other by auto. eauto.
+Qed.
+Lemma sites_fold_keeps s fts f ft : forall l m, (exists x, aget f m = Some x /\ In ft x) -> exists x, aget f (fold_left (site_step s fts) l m) = Some x /\ In ft x.
+Proof. induction l as [|ce l IH]; intros m H; cbn [fold_left]; [exact H|]. apply IH, site_step_keeps, H. Qed.
+Lemma sites_contains s fts ce f ft : forall pcfg m,
+  In ce pcfg -> is_call ce = true -> is_proxy (tgt ce) = false -> is_code s (nid (tgt ce)) = true ->
+  aget (nid (tgt ce)) (fbb s) = Some f -> aget (nid (src ce)) fts = Some ft ->
+  exists x, aget f (fold_left (site_step s fts) pcfg m) = Some x /\ In ft x.
+Proof.
+  induction pcfg as [|e l IH]; intros m Hin H1 H2 H3 H4 H5; [destruct Hin|]. cbn [fold_left].
+  destruct Hin as [->|Hin]; [|apply IH; assumption].
+  apply sites_fold_keeps. unfold site_step. rewrite H1, H2, H3, H4, H5. cbn [negb].
+  rewrite aget_aset_same. eexists. split; [reflexivity|]. destruct (aget f m); [apply in_or_app; right|]; left; reflexivity.
+Qed.
+
+Lemma sites_run_spec : forall (sites : list (nat * list node)) s pc s' pc' f l b ft,
+  fold_left (fun acc fr => let '(s, pc) := acc in add_return_edges_to_callee s (fst fr) (snd fr) pc) sites (s, pc) = (s', pc') ->
+  aget f sites = Some l -> In ft l -> In b (func_blocks s f) -> has_ret s b ->
+  (forall g, g <> f -> ~ In b (func_blocks s g)) ->
+  In (mk_edge' (NB b) ft ET_RETURN) pc'.
+Proof.
+  induction sites as [|[g lg] rest IH]; intros s pc s' pc' f l b ft E Hg Hft Hb Hr Hother; [discriminate|].
+  cbn [fold_left fst snd] in E. destruct (add_return_edges_to_callee s g lg pc) as [s1 pc1] eqn:E1.
+  destruct (callee_step_spec _ _ _ _ _ _ E1) as (A & B & C & D).
+  assert (Hmono : forall sites0 s0 pc0 s2 pc2 e,
+            fold_left (fun acc fr => let '(s, pc) := acc in add_return_edges_to_callee s (fst fr) (snd fr) pc) sites0 (s0, pc0) = (s2, pc2) -> In e pc0 -> In e pc2).
+  { clear. induction sites0 as [|[g lg] r IHr]; intros s0 pc0 s2 pc2 e E He; cbn [fold_left fst snd] in E; [inversion E; subst; exact He|].
+    destruct (add_return_edges_to_callee s0 g lg pc0) as [s1 pc1] eqn:E1. destruct (callee_step_spec _ _ _ _ _ _ E1) as (_ & B & _).
+    eapply IHr; [exact E|apply B, He]. }
+  cbn [aget] in Hg. destruct (Nat.eqb g f) eqn:Egf.
+  - apply Nat.eqb_eq in Egf. subst g. inversion Hg; subst lg. eapply Hmono; [exact E|]. apply C; assumption.
+  - apply Nat.eqb_neq in Egf.
+    assert (Hfb : forall h, func_blocks s1 h = func_blocks s h) by (intros h; unfold func_blocks; rewrite A; reflexivity).
+    eapply (IH s1 pc1 s' pc' f l b ft E Hg Hft); [rewrite Hfb; exact Hb|apply D; [apply Hother; exact Egf|exact Hr]|].
+    intros h Hh. rewrite Hfb. apply Hother, Hh.
+Qed.
+
+(* C03: a patch that calls function f (possibly several times): every block of f that returns gets a Return edge to the block
+   behind each of the calls *)
+Theorem patch_calls_get_their_return_edges s pcfg s' pc' ce f ft b :
+  add_return_edges_for_patch_calls s pcfg = (s', pc') ->
+  In ce pcfg -> is_call ce = true -> is_proxy (tgt ce) = false -> is_code s (nid (tgt ce)) = true ->
+  aget (nid (tgt ce)) (fbb s) = Some f ->
+  aget (nid (src ce)) (fold_left (fun m e => if is_ft e then aset (nid (src e)) (tgt e) m else m) pcfg []) = Some ft ->
+  In b (func_blocks s f) -> has_ret s b -> (forall g, g <> f -> ~ In b (func_blocks s g)) ->
+  In (mk_edge' (NB b) ft ET_RETURN) pc'.
+Proof.
+  intros E Hin H1 H2 H3 H4 H5 Hb Hr Ho. unfold add_return_edges_for_patch_calls in E.
+  set (fts := fold_left (fun m e => if is_ft e then aset (nid (src e)) (tgt e) m else m) pcfg []) in *.
+  fold (site_step s fts) in E.
+  destruct (sites_contains s fts ce f ft pcfg [] Hin H1 H2 H3 H4 H5) as (l & Hl & Hft).
+  eapply sites_run_spec; eauto.
 Qed.
